@@ -12,9 +12,9 @@
      Layout    Cluster(...)                  cell centres / rotations of hexagonal, 3-sector and square clusters
      DistMat   Cluster.calc_dist_all_users_to_each_cell[_no_wrap_around]  (squared, exact)
      Wrap      Cluster.create_wrap_around_cells  (19 cells): the surrounding copies of the cluster
-     Sec3New / Sec3SetPos / Sec3SetRot / Sec3SetRad
-               Cell3Sec and its three sector cells under any sequence of setter calls
-               (a finite machine: ALL histories are explored)
+     MutNew / MutSetPos / MutSetRot / MutSetRad
+               Cell, CellSquare, Rectangle, Circle and Cell3Sec (with its three sector cells) under any
+               sequence of pos / rotation / radius setter calls (a finite machine: ALL histories are explored)
      Place, PProc   enumerate the (rel) cases: random user placement and random point processes;
                the module supplies the exact polygon / radii the placement is judged with.
 
@@ -49,7 +49,7 @@ CONSTANTS Ops,       \* enabled operations (subset of the names above, lower cas
           UCells,    \* DistMat: cells (ids, clipped to n) that get users
           UAngles,   \* DistMat: directions k (30 k degrees) of the border users (ratio 1/2)
           URel,      \* DistMat: relative positions (points, in units of the cell radius) for add_user
-          SecAlpha,  \* Cell3Sec machine: [pos : seq of points, r : seq, rot : seq of degrees]
+          MutAlpha,  \* setter machine: [base : seq of [kind, w, h], pos : seq of points, r : seq, rot : seq of degrees]
           RelCases,  \* sequence of (rel) cases, see Place / PProc
           Dev        \* [name |-> BOOLEAN]
 
@@ -278,43 +278,69 @@ Wrap ==
         /\ c' = [op |-> "wrap", cl |-> Clusters[i], rot |-> rot]
         /\ out' = WrapOut(Clusters[i], rot)
 
-(* ------------------------------------ Cell3Sec under setter calls ------------------------------- *)
-\* The object stores its three sector cells (centre, radius, rotation); every setter has to move them.
+(* ------------------------------------ shapes under setter calls --------------------------------- *)
+(* Cell (hexagon), CellSquare, Rectangle, Circle and Cell3Sec are objects with pos / rotation / radius
+   setters.  The machine keeps what the objects STORE besides pos, radius, rotation:
+     Rectangle / CellSquare  the centre `cpos` its two absolute corner coordinates were built around
+     Cell3Sec                 its three sector cells (centre, radius, rotation)
+   and every setter has to keep that in step.  The property: after ANY history of setter calls the
+   object is indistinguishable from a fresh one with the current position, size and rotation.
+   The machine is finite, so all histories are explored.                                         *)
+MutShape(st) == [kind |-> st.kind, pos |-> st.pos, r |-> st.r, w |-> st.w, h |-> st.h, rad |-> Q0, ipos |-> st.pos]
 SecCentres(pos, r, rot) == [j \in 1..3 |-> PAdd(pos, Rot(DegK(rot), SecC0(r)[j]))]
 HexAt(ctr, r, rot) == Translate(RotPoly(DegK(rot), HexV0(r)), ctr)
-SecObj(pos, r, rot, secc, secr, secrot) ==
-   [verts |-> Verts([kind |-> "sec3", pos |-> pos, r |-> r], rot), secc |-> secc, secr |-> secr, secrot |-> secrot,
-    secv |-> [j \in 1..3 |-> HexAt(secc[j], secr, secrot)]]
-Sec3New ==
-   /\ "sec3" \in Ops /\ c.op = "init"
-   /\ \E p \in 1..Len(SecAlpha.pos), r \in 1..Len(SecAlpha.r), t \in 1..Len(SecAlpha.rot) :
-        LET pos == SecAlpha.pos[p]
-            rr  == SecAlpha.r[r]
-            rot == SecAlpha.rot[t]
-        IN  /\ c' = [op |-> "sec3", pos |-> pos, r |-> rr, rot |-> rot, call |-> <<"new", p, r, t>>]
-            /\ out' = SecObj(pos, rr, rot, SecCentres(pos, rr, rot), SecRadius(rr), rot - 30)
-Sec3SetPos ==
-   /\ "sec3" \in Ops /\ c.op = "sec3"
-   /\ \E p \in 1..Len(SecAlpha.pos) :
-        LET pos == SecAlpha.pos[p]
-        IN  /\ c' = [c EXCEPT !.pos = pos, !.call = <<"pos", p>>]
-            /\ out' = SecObj(pos, c.r, c.rot,
-                             IF Dev.Sec3SetPosKeepsSectors THEN out.secc ELSE SecCentres(pos, c.r, c.rot),
-                             out.secr, out.secrot)
-Sec3SetRot ==
-   /\ "sec3" \in Ops /\ c.op = "sec3"
-   /\ \E t \in 1..Len(SecAlpha.rot) :
-        LET rot == SecAlpha.rot[t]
-        IN  /\ c' = [c EXCEPT !.rot = rot, !.call = <<"rot", t>>]
-            /\ out' = SecObj(c.pos, c.r, rot, SecCentres(c.pos, c.r, rot), out.secr, rot - 30)
-Sec3SetRad ==
-   /\ "sec3" \in Ops /\ c.op = "sec3"
-   /\ \E r \in 1..Len(SecAlpha.r) :
-        LET rr == SecAlpha.r[r]
-        IN  /\ c' = [c EXCEPT !.r = rr, !.call = <<"rad", r>>]
-            /\ out' = SecObj(c.pos, rr, c.rot,
-                             IF Dev.Sec3SetRadiusKeepsCentres THEN out.secc ELSE SecCentres(c.pos, rr, c.rot),
-                             SecRadius(rr), out.secrot)
+FreshStore(st) == [cpos |-> st.pos, secc |-> SecCentres(st.pos, st.r, st.rot), secr |-> SecRadius(st.r), secrot |-> st.rot - 30]
+\* the vertices the object reports: corners are absolute coordinates around cpos, rotated about pos
+MutVerts(st, store) ==
+   IF st.kind \in {"rect", "square"}
+     THEN LET V == RectV0(st.w, IF st.kind = "square" THEN st.w ELSE st.h)
+          IN  [k \in 1..4 |-> PAdd(st.pos, Rot(DegK(st.rot), PSub(PAdd(store.cpos, V[k]), st.pos)))]
+     ELSE Verts(MutShape(st), st.rot)
+MutOut(st, store) ==
+   LET V == MutVerts(st, store)
+       K == PolyCtx(V, QLcm(PolyDen(V), ShapeDen(MutShape(st))))
+   IN  [verts |-> V, store |-> store,
+        secv  |-> IF st.kind = "sec3" THEN [j \in 1..3 |-> HexAt(store.secc[j], store.secr, store.secrot)] ELSE <<>>,
+        \* containment as the object decides it (its own polygon / disc)
+        res   |-> [n \in 1..NG |-> CodeZ(MutShape(st), K, ZGrid(n, K.D))]]
+MutState(b, pos, r, rot, call) ==
+   [op |-> "mut", kind |-> b.kind, w |-> b.w, h |-> b.h, pos |-> pos, r |-> r, rot |-> rot, call |-> call]
+HasRot(k) == k # "circle"
+HasRad(k) == k \in {"hex", "circle", "sec3"}
+
+MutNew ==
+   /\ "mut" \in Ops /\ c.op = "init"
+   /\ \E b \in 1..Len(MutAlpha.base), p \in 1..Len(MutAlpha.pos), r \in 1..Len(MutAlpha.r), t \in 1..Len(MutAlpha.rot) :
+        LET st == MutState(MutAlpha.base[b], MutAlpha.pos[p], MutAlpha.r[r], MutAlpha.rot[t], <<"new", b, p, r, t>>)
+        IN  /\ HasRot(st.kind) \/ st.rot = 0
+            /\ HasRad(st.kind) \/ r = 1
+            /\ c' = st
+            /\ out' = MutOut(st, FreshStore(st))
+MutSetPos ==
+   /\ "mut" \in Ops /\ c.op = "mut"
+   /\ \E p \in 1..Len(MutAlpha.pos) :
+        LET st == [c EXCEPT !.pos = MutAlpha.pos[p], !.call = <<"pos", p>>]
+            fs == FreshStore(st)
+        IN  /\ c' = st
+            /\ out' = MutOut(st, [out.store EXCEPT
+                          !.cpos = IF Dev.RectanglePosSetterKeepsCorners THEN @ ELSE fs.cpos,
+                          !.secc = IF Dev.Sec3SetPosKeepsSectors THEN @ ELSE fs.secc])
+MutSetRot ==
+   /\ "mut" \in Ops /\ c.op = "mut" /\ HasRot(c.kind)
+   /\ \E t \in 1..Len(MutAlpha.rot) :
+        LET st == [c EXCEPT !.rot = MutAlpha.rot[t], !.call = <<"rot", t>>]
+            fs == FreshStore(st)
+        IN  /\ c' = st
+            /\ out' = MutOut(st, [out.store EXCEPT !.secc = fs.secc, !.secrot = fs.secrot])
+MutSetRad ==
+   /\ "mut" \in Ops /\ c.op = "mut" /\ HasRad(c.kind)
+   /\ \E r \in 1..Len(MutAlpha.r) :
+        LET st == [c EXCEPT !.r = MutAlpha.r[r], !.call = <<"rad", r>>]
+            fs == FreshStore(st)
+        IN  /\ c' = st
+            /\ out' = MutOut(st, [out.store EXCEPT
+                          !.secc = IF Dev.Sec3SetRadiusKeepsCentres THEN @ ELSE fs.secc,
+                          !.secr = fs.secr])
 
 (* ------------------------------------ (rel) cases ----------------------------------------------- *)
 \* random placement: [what |-> "place", s, rot, ratio (a QR3 value), users, sector (0 = whole cell)]
@@ -351,12 +377,12 @@ PProc ==
 (* ------------------------------------ machine --------------------------------------------------- *)
 Idle == [op |-> "init"]
 Init == c = Idle /\ out = <<>>
-Next == Contain \/ Border \/ Layout \/ DistMat \/ Wrap \/ Sec3New \/ Sec3SetPos \/ Sec3SetRot \/ Sec3SetRad
+Next == Contain \/ Border \/ Layout \/ DistMat \/ Wrap \/ MutNew \/ MutSetPos \/ MutSetRot \/ MutSetRad
           \/ Place \/ PlaceCl \/ PProc
 Spec == Init /\ [][Next]_vars
 
 (* ------------------------------------ properties ------------------------------------------------ *)
-TypeOK == c.op \in {"init", "contain", "border", "layout", "distmat", "wrap", "sec3", "place", "placecl", "pproc"}
+TypeOK == c.op \in {"init", "contain", "border", "layout", "distmat", "wrap", "mut", "place", "placecl", "pproc"}
 
 \* --- vertices
 \* a full turn changes nothing; the vertices are at the documented distances from the centre
@@ -503,14 +529,18 @@ WrapLaws ==
                   /\ \A w \in W : QLt(QMulI(4, QSq(cl.r)), Dist2(w.p, cl.pos))
      IN  ok(out.w1) /\ ok(out.w2)
 
-\* --- Cell3Sec: whatever the history of setter calls, the sectors are those of a fresh object
-Sec3Fresh ==
-   c.op = "sec3" => /\ out.secc = SecCentres(c.pos, c.r, c.rot)
-                    /\ out.secr = SecRadius(c.r)
-                    /\ out.secrot = c.rot - 30
-                    /\ out.verts = Verts([kind |-> "sec3", pos |-> c.pos, r |-> c.r], c.rot)
-                    /\ \A j \in 1..3 : {out.secv[j][i] : i \in 1..6}
-                                          = {SecHex([pos |-> c.pos, r |-> c.r], c.rot, j)[i] : i \in 1..6}
+\* --- setters: whatever the history of setter calls, the object is that of a fresh construction
+MutFresh ==
+   c.op = "mut" =>
+     LET fresh == MutShape(c)
+     IN  /\ out.verts = Verts(fresh, c.rot)
+         /\ c.kind \in {"rect", "square"} => out.store.cpos = c.pos
+         /\ c.kind = "sec3" =>
+               /\ out.store.secc = SecCentres(c.pos, c.r, c.rot)
+               /\ out.store.secr = SecRadius(c.r)
+               /\ out.store.secrot = c.rot - 30
+               \* the stored sector hexagons (rotation rot - 30) are the sectors (rotation rot + 30) as point sets
+               /\ \A j \in 1..3 : {out.secv[j][i] : i \in 1..6} = {SecHex(fresh, c.rot, j)[i] : i \in 1..6}
 
 (* ------------------------------------ emission -------------------------------------------------- *)
 Emit == EmitEdge([pre |-> c, post |-> c', out |-> out'])
